@@ -26,7 +26,7 @@ RULE = ("coarsen_bins: every valid bin table with 1 chromosome of length <=7 and
         "coarsen_cooler: corpus (D1 longer-last-bin tables, chromosomes shorter than k, empty cooler, empty rows at chunk edges, variable tables whose coarsening looks fixed, bin size 1, one-bin chromosomes) x k in {2,3,5,n+1} x chunksize in {1,2,7,nnz+1} (all 16 combinations for the first 4 corpus coolers, 2 chunk sizes per k for the others), "
         "seeded random coolers (fixed / variable / longer-last / variable-that-coarsens-to-fixed tables, 1-4 chromosomes, symmetric and square storage, 9 pixel patterns) x all four k x two chunk sizes, "
         "fixed-width tables of EVERY width 1..60 x k in {2,7} and 1..30 x k in {3,5} (thorough: 1..200 x {2,3,5,7}) at function level (chunk stream of CoolerCoarsener vs exact integer division) and end to end for widths 7,49,98,103,107,161,187,196 + random widths <= 2000 with >= 3 coarse bins per chromosome; nproc=2 and the CLI on a few, chains k1;k2 vs k1*k2 (fixed and variable tables), merge/coarsen interleavings, a second value column with agg max/min/sum incl. the D20 corpus (columns=[count,w], columns=[w]); "
-        "HISTORIES in one process (the same source and destination URI strings while the source file is rewritten in between: re-binned coarser/finer, other chromsizes, variable widths, fewer/more bins, square, nproc 1 then 2 and 2 then 1, several chunk sizes; a hand-made ladder over two alternating file names), every output judged for the data stored now; every level (copied bases included, k=1) of zoomify_cooler / `cooler zoomify --base-uri` files built from 1, 2 and 3 base coolers in every listing order (bases that are / are not multiples of each other) vs the block aggregation of its own base; fixed parameter scenarios (output URI in a nested group, append into an existing file, same-file in/out, re-run onto an existing group, mode=w, nproc 2/3 with an uneven span count, CLI -p/--append/-a/-o URI, dtypes full/partial dict, lock=, float64 counts, weight bin column on the input, trailing empty rows, CoolerCoarsener batchsize 2/3); non-trivial = nnz>0 and at least 2 old bins; distinct by input hash")
+        "LARGE genomes with few bins (total length just below / at / above 2^31 and 2^32, every chromosome < 2^31; fixed bins of 100 Mb..1 Gb and variable tables; symmetric and square; k = 2, 3 and k collapsing every chromosome to one bin; chunk sizes 1/7/nnz+1; nproc 1 and 2; zoomify on the same bases); HISTORIES in one process (the same source and destination URI strings while the source file is rewritten in between: re-binned coarser/finer, other chromsizes, variable widths, fewer/more bins, square, nproc 1 then 2 and 2 then 1, several chunk sizes; a hand-made ladder over two alternating file names), every output judged for the data stored now; every level (copied bases included, k=1) of zoomify_cooler / `cooler zoomify --base-uri` files built from 1, 2 and 3 base coolers in every listing order (bases that are / are not multiples of each other) vs the block aggregation of its own base; fixed parameter scenarios (output URI in a nested group, append into an existing file, same-file in/out, re-run onto an existing group, mode=w, nproc 2/3 with an uneven span count, CLI -p/--append/-a/-o URI, dtypes full/partial dict, lock=, float64 counts, weight bin column on the input, trailing empty rows, CoolerCoarsener batchsize 2/3); non-trivial = nnz>0 and at least 2 old bins; distinct by input hash")
 TRUSTED = ["pandas groupby(sort=True).aggregate('sum') is modelled as the canonical aggregate (Model/Pixels.v) and observed through CoolerCoarsener",
            "create() stores the concatenation of the chunk stream (property C01/C02, observed here through the output cooler)",
            "multiprocess.Pool.map is order preserving (source-pattern assertion on coarsen_cooler + nproc=2 runs)"]
@@ -1198,6 +1198,109 @@ def part_history(ctx):
     return n
 
 
+# ------- part 10: LARGE genomes with FEW bins: genome-wide offsets around 2^31 and 2^32 (every chromosome < 2^31)
+LARGE_GENOMES = [
+    ("just below 2^31", [1_000_000_000, 700_000_000, 447_483_000]),
+    ("exactly 2^31", [1_000_000_000, 700_000_000, 447_483_648]),
+    ("above 2^31", [1_200_000_000, 900_000_000, 600_000_000, 300_000_000]),
+    ("just below 2^32", [1_500_000_000, 1_500_000_000, 1_200_000_000, 94_967_000, 250_000_000]),
+    ("exactly 2^32", [1_500_000_000, 1_500_000_000, 1_200_000_000, 94_967_296]),
+    ("above 2^32", [2_000_000_000, 2_000_000_000, 1_500_000_000, 800_000_000, 2_147_483_647]),
+]
+
+
+def large_variable_widths(rng, sizes):
+    out = []
+    for L in sizes:
+        cuts = sorted({rng.randrange(1, L // 50_000_000 + 1) * 50_000_000 for _ in range(rng.randint(1, 3))} - {L})
+        cuts = [c for c in cuts if 0 < c < L]
+        edges = [0] + cuts + [L]
+        out.append([b - a for a, b in zip(edges[:-1], edges[1:])])
+    return out
+
+
+def part_large(ctx):
+    import c09
+    thorough = ctx.tier == "thorough"
+    rng = ctx.rng
+    tmpdir = ctx.tmp / "large"
+    tmpdir.mkdir(exist_ok=True)
+    inputs = []
+    allb = [100_000_000, 250_000_000, 500_000_000, 1_000_000_000]
+
+    def nbins(sizes, bb):
+        return sum(-(-L // bb) for L in sizes)
+    for gi, (gname, sizes) in enumerate(LARGE_GENOMES):
+        ok = [bb for bb in allb if nbins(sizes, bb) <= 24]          # few bins: the runs stay cheap
+        for bb in (ok if thorough else [ok[(gi + rng.randrange(len(ok))) % len(ok)]]):
+            inputs.append((f"{gname}, fixed {bb // 1_000_000} Mb", fixed_widths(sizes, bb), rng.random() < 0.6, bb))
+        if thorough or gi % 2 == 1 or gi == 2:
+            inputs.append((f"{gname}, variable", large_variable_widths(rng, sizes), rng.random() < 0.5, None))
+    runs, zooms = [], []
+    for note, widths, symm, bb in inputs:
+        n = sum(len(w) for w in widths)
+        nmax = max(len(w) for w in widths)
+        # pixels on every chromosome, in particular on those beyond the 2^31 / 2^32 marks
+        pixels = [list(p) for p in G.random_pixels(rng, n, symm, rng.choice(["dense", "dense", "band"]))]
+        ks = [2, nmax + 1] + ([3] if (thorough or rng.random() < 0.4) else [])
+        for k in ks:
+            runs.append({"fn": "coarsen_cooler", "widths": widths, "symmetric": symm, "pixels": pixels, "k": k,
+                         "chunksize": rng.choice([1, 7, len(pixels) + 1]), "nproc": 1, "note": "large:" + note})
+        blocks = blocks_from_widths(widths)
+        # zoomify's convention: the base resolution is the bin size if the table reports one (some chromosome has
+        # >= 2 bins of that width), 1 otherwise
+        rb = bb if (bb and nmax >= 2) else 1
+        base = {"res": rb, "blocks": [[list(x) for x in blk] for blk in blocks], "pixels": pixels, "weight": False}
+        zooms.append({"fn": "zoomify_cooler (large genome)", "symmetric": symm, "bases": [base],
+                      "resolutions": sorted({2 * rb, (nmax + 1) * rb} | ({4 * rb} if nmax >= 4 else set())),
+                      "chunksize": rng.choice([1, 7, 1000]), "note": "large:" + note})
+    if runs:
+        r2 = dict(runs[len(runs) // 2], nproc=2, chunksize=1, note=runs[len(runs) // 2]["note"] + " nproc=2")
+        r3 = dict(runs[-2], nproc=2, chunksize=1, note=runs[-2]["note"] + " nproc=2")
+        runs += [r2, r3]
+    if not thorough:
+        zooms = zooms[::2]
+    model = C.coq_eval(HDR, [model_expr(c, c["nproc"]) for c in runs], tmpdir=ctx.tmp / "largev")
+    paths = {}
+    for ri, (case, mo) in enumerate(zip(runs, model)):
+        key = case["note"].replace(" nproc=2", "")
+        if key not in paths:
+            paths[key] = tmpdir / f"g{len(paths)}.cool"
+            G.make_cooler(paths[key], blocks_from_widths(case["widths"]), case["pixels"], case["symmetric"])
+        ctx.case(case, nontrivial=True, kind="large-genome")
+        mbins, mpx, medges, mchunks = mo
+        st, res, out = run_api_case(ctx, tmpdir, f"L{ri}", case, cooler_path=paths[key])
+        if st != "ok":
+            ctx.compare(case["fn"], case, st, "ok")
+            ctx.fail(case, {"exception": st, "type": res}, None)
+            continue
+        os.remove(out)
+        ctx.compare("coarsen_cooler bins (large genome)", case, res["bins"], [list(r) for r in mbins])
+        ctx.compare("coarsen_cooler pixels (large genome)", case, res["pixels"], [list(p) for p in mpx])
+        bad = oracle_check(case, res)
+        if bad:
+            ctx.fail(case, bad, None)
+    for p in paths.values():
+        if p.exists():
+            os.remove(p)
+    zmodel = C.coq_eval(c09.HDR, [c09.zoom_model_expr(c) for c in zooms], tmpdir=ctx.tmp / "largezv")
+    for i, (case, mo) in enumerate(zip(zooms, zmodel)):
+        ctx.case(case, nontrivial=True, kind="large-genome-zoomify")
+        st, res, srcs = c09.zoom_run(tmpdir, f"Z{i}", case)
+        if mo is None or st != "ok":
+            ctx.compare("zoomify status (large genome)", case, st, "ValueError" if mo is None else "ok")
+        else:
+            for r, bins_, px_ in mo[1]:
+                lv = res["levels"].get(f"/resolutions/{r}")
+                if lv is not None:
+                    ctx.compare(f"large genome level {r} bins", case, lv["bins"], [list(x) for x in bins_])
+                    ctx.compare(f"large genome level {r} pixels", case, lv["pixels"], [list(x) for x in px_])
+        bad = c09.zoom_oracle(case, st, res, srcs)
+        if bad:
+            ctx.fail(case, bad, None)
+    return len(runs) + len(zooms)
+
+
 # ----------------------------------------------------------------------- run
 def run(ctx):
     import time
@@ -1205,7 +1308,7 @@ def run(ctx):
     scopes, times = {}, {}
     for name, fn in (("coarsen_bins_cases", part_bins), ("prune_cases", part_prune), ("api_runs", part_api),
                      ("width_sweep_runs", part_widths), ("chains", part_chain), ("merge_interleavings", part_merge),
-                     ("agg_runs", part_agg), ("param_scenarios", part_params), ("multires_levels", part_multires), ("history_steps", part_history)):
+                     ("agg_runs", part_agg), ("param_scenarios", part_params), ("multires_levels", part_multires), ("history_steps", part_history), ("large_genome_runs", part_large)):
         t0 = time.time()
         scopes[name] = fn(ctx)
         times[name] = round(time.time() - t0, 1)
@@ -1226,7 +1329,7 @@ def replay(ctx, case):
         return True
     if fn == "history-ladder":
         return ladder_bad(case, history_ladder_run(tmpdir, case)) is None
-    if fn.endswith("(every level)"):
+    if fn.endswith("(every level)") or fn == "zoomify_cooler (large genome)":
         import c09
         st, res, srcs = c09.zoom_run(tmpdir, "replay", case)
         return c09.zoom_oracle(case, st, res, srcs) is None
